@@ -7,8 +7,18 @@ import linegen
 
 def families(tier):
     if tier == "quick":
-        return D.val_family(SEED + 60, 42, maxlen=3, budget=5000) + D.env_family(SEED + 61, 22, maxlen=2, budget=300)
-    return D.val_family(SEED + 60, 200, maxlen=4, budget=60000) + D.env_family(SEED + 61, 66, maxlen=3, budget=3000)
+        fam = D.val_family(SEED + 60, 42, maxlen=3, budget=5000) + D.env_family(SEED + 61, 22, maxlen=2, budget=300)
+    else:
+        fam = D.val_family(SEED + 60, 200, maxlen=4, budget=60000) + D.env_family(SEED + 61, 66, maxlen=3, budget=3000)
+    # `fallback_to_usage` on some levels: usage is printed for *no arguments at all*, never instead of the message
+    # about a value that is present and invalid
+    import random
+    rnd = random.Random(SEED + 69)
+    for d in fam:
+        for lvl in D.all_levels(d):
+            if rnd.random() < 0.4:
+                lvl["ftu"] = True
+    return fam
 
 
 def enrich(cases, out):
@@ -82,7 +92,8 @@ def run(v):
                                 signature=cmdline_sig.alt_env_sig, trace_module="GroupLineTrace", name="C06e")
     cov = merge_cov(cov, ecov, "alt_env")
     # a positional branch of a choice: a word that does not convert fails the run, it never turns into absence
-    pfam = D.alt_pos_family(SEED + 66, 12 if q else 60, maxlen=3 if q else 4, budget=3000 if q else 30000)
+    pfam = D.alt_pos_family(SEED + 66, 12 if q else 60, maxlen=3 if q else 4, budget=3000 if q else 30000) + \
+        D.group_fb_family(SEED + 68, 12 if q else 36, maxlen=3 if q else 4, budget=2500 if q else 25000)
     pcov = run_cmdline_property(v, pfam, None, replay_cfg="MC_GroupLine_replay.cfg", module="MC_GroupLine",
                                 signature=cmdline_sig.signature, trace_module="GroupLineTrace", name="C06p")
     cov = merge_cov(cov, pcov, "alt_pos")
